@@ -769,6 +769,19 @@ pub fn parent_main(prop: &'static dyn Property, tier: Tier, base_seed: u64) -> i
             picked.push(longest.clone());
         }
     }
+    if picked.is_empty() {
+        // No worker finished a run with a recorded trace (every worker was stopped by the real-time
+        // watchdog, or the batch was empty): say so instead of leaving the list empty.
+        picked.push(json!({
+            "mode": "none",
+            "seed": base_seed,
+            "choices_drawn": 0,
+            "steps": 0,
+            "faults": {},
+            "trace": ["no run of this batch completed with a recorded trace (see new_violations / harness_errors)"],
+            "trace_events_omitted": 0,
+        }));
+    }
     let evidence = json!({
         "property_id": prop.id(),
         "tier": tier.name(),
